@@ -21,6 +21,9 @@
 (*  bchoose chooseKoutOfN for large (n, k): count, validity, distinctness  *)
 (*  bdeal   large dealings (real Gen) reconstructed and signed/aggregated  *)
 (*          through the public API over demanded classes of subsets        *)
+(*  seq     SEQUENCES of key generations on the same instances (Init +     *)
+(*          KeyGen again): every run judged like a run on fresh instances, *)
+(*          its public material a function of that run's keys only         *)
 (* and, at the end, completeness: every large cell the model demands       *)
 (* (Algebra!BigCases, BigNT x DealClasses, BigChoose, BigDkg) was executed *)
 (* for both packages.                                                      *)
@@ -35,6 +38,9 @@ CONSTANTS TraceFile,
           ModelQ,     \* field in which the expected verdict of the DKG cases is decided
           ModelP,     \* coefficients handed to Algebra!VerdictPoly for that (the same as AlgebraMC's Sample[1])
           BigSizes, RandSets, BigNT, BigDkg, BigChoose, BigQ,    \* the demanded LARGE cases, exactly as given to AlgebraMC
+          SeqPlans,      \* the demanded sequences of key generations on the same instances, as given to AlgebraMC
+          SeqSchemes,    \* schemes of which they are demanded (a scheme whose instances cannot run a second key generation at all on
+                         \* the tree under test is reported by the probe and not demanded)
           CheckCoverage  \* TRUE: every demanded large case must have been executed (FALSE for replays of single cases)
 
 Results == ndJsonDeserialize(TraceFile)
@@ -97,30 +103,59 @@ CheckRec(r) ==
                      Drift(r, "model interpolation of the real shares disagrees with the library")
 
 \* DKG through the public API.
-CheckDkg(r) ==
+\* One key generation (r), reported under the record `top` (r itself, or the sequence it belongs to).  tag distinguishes the
+\* input class in the signatures ("" / "-large" / "-rerun": a later key generation on instances that ran one before).
+CheckRun(top, r, tag, fresh, idx) ==
   LET exp     == IF r.big THEN ModelVerdictT(r.n, r.t, r.pos, r.off, VerdictPoly(ModelP, r.t, BigQ), BigQ)
                           ELSE ModelVerdict(r.n, r.t, r.pos, r.off, VerdictPoly(ModelP, r.t, ModelQ), ModelQ)
       H       == DOMAIN r.errs
       failed  == {m \in H : r.errs[m] \/ r.panics[m]}
-      sig(x)  == x \o (IF r.big THEN "-large/" ELSE "/") \o r.scheme
-      where   == [n |-> r.n, t |-> r.t, pos |-> r.pos, off |-> r.off, ids |-> r.ids, err |-> r.errtxt] IN
-  /\ (r.timeout \/ r.harness # "") => Bad(r, "DKG run not usable: " \o (IF r.timeout THEN "timeout " ELSE "") \o r.harness)
-  /\ exp # r.expect => Bad(r, "case list and trace specification disagree on the expected verdict")
+      sig(x)  == x \o tag \o "/" \o r.scheme
+      where   == [n |-> r.n, t |-> r.t, pos |-> r.pos, off |-> r.off, ids |-> r.ids, run |-> idx,
+                  err |-> IF r.errtxt # "" THEN r.errtxt ELSE r.panictxt] IN
+  /\ (r.timeout \/ r.harness # "") => Bad(top, "DKG run not usable: " \o (IF r.timeout THEN "timeout " ELSE "") \o r.harness)
+  /\ exp # r.expect => Bad(top, "case list and trace specification disagree on the expected verdict")
   /\ (~r.timeout /\ r.harness = "") =>
        /\ exp = "accept" =>
-            /\ (failed # {} \/ ~r.agree) => Viol(r, "OnPolynomialKeysAccepted", sig("dkg-accept"), where)
+            /\ (failed # {} \/ ~r.agree) => Viol(top, "OnPolynomialKeysAccepted", sig("dkg-accept"), where)
+            /\ (failed = {} /\ r.agree /\ (~r.material \/ ~fresh)) =>
+                  Viol(top, "PublicMaterialOfThisRunOnly", sig("dkg-material"),
+                       [where EXCEPT !.err = IF ~r.material THEN r.matwhy ELSE "the same threshold key as in an earlier key generation"])
             /\ (failed = {} /\ r.agree /\ r.signed) =>
                  /\ (r.errtxt # "" \/ \E m \in DOMAIN r.subs : Len(r.subs[m]) >= r.t /\ ~r.oks[m]) =>
-                       Viol(r, "SharesAggregateToThresholdKey", sig("dkg-aggregate"),
-                            [n |-> r.n, t |-> r.t, pos |-> r.pos, err |-> r.errtxt,
+                       Viol(top, "SharesAggregateToThresholdKey", sig("dkg-aggregate"),
+                            [n |-> r.n, t |-> r.t, pos |-> r.pos, run |-> idx, err |-> r.errtxt,
                              failing |-> {r.subs[m] : m \in {mm \in DOMAIN r.subs : Len(r.subs[mm]) >= r.t /\ ~r.oks[mm]}}])
-                 /\ (\E m \in DOMAIN r.subs : Len(r.subs[m]) < r.t /\ r.oks[m]) => Drift(r, "fewer than t partial signatures verified under the threshold key")
+                 /\ (\E m \in DOMAIN r.subs : Len(r.subs[m]) < r.t /\ r.oks[m]) => Drift(top, "fewer than t partial signatures verified under the threshold key")
                  /\ (r.exh /\ ~({S \in SUBSET (1..r.n) : Cardinality(S) >= r.t} \subseteq {ToSet(r.subs[m]) : m \in DOMAIN r.subs})) =>
-                       Bad(r, "record claims all subsets but some are missing")
+                       Bad(top, "record claims all subsets but some are missing")
        /\ (exp = "detect" /\ failed # H) =>
-            Viol(r, "OffPolynomialKeyDetected", sig("dkg-detect"), [where EXCEPT !.err = "accepted by " \o ToString(Cardinality(H \ failed)) \o " parties"])
+            Viol(top, "OffPolynomialKeyDetected", sig("dkg-detect"), [where EXCEPT !.err = "accepted by " \o ToString(Cardinality(H \ failed)) \o " parties"])
        /\ (exp = "undetectable" /\ failed # {}) =>
-            Drift(r, "a deviation the model calls undetectable (t = n) was rejected")
+            Drift(top, "a deviation the model calls undetectable (t = n) was rejected")
+
+\* DKG through the public API, fresh instances
+CheckDkg(r) == CheckRun(r, r, IF r.big THEN "-large" ELSE "", TRUE, 1)
+
+\* a sequence of key generations on the SAME instances: the demanded plan, every run judged like a run on fresh instances (its
+\* expected verdict is a function of that run alone), the reported public material a function of that run's announced keys
+CheckSeq(r) ==
+  LET plan == RunPlan(r.plan[1], r.plan[2], r.plan[3], r.plan[4])
+      exp  == ExpectedVerdicts(plan, ModelP, ModelQ) IN
+  /\ (Len(r.runs) # r.planned \/ r.planned # Len(plan)) => Bad(r, "the sequence of key generations is not the demanded plan (stopped early?)")
+  /\ \A k \in DOMAIN r.runs :
+       LET x == r.runs[k] IN
+       /\ (k <= Len(plan) /\ (Run(x.n, x.t, x.pos, x.off) # plan[k] \/ x.expect # exp[k])) => Bad(r, "run " \o ToString(k) \o " is not the run of the plan")
+       /\ CheckRun(r, x, IF k = 1 THEN "" ELSE "-rerun", x.fresh, k)
+       /\ (k > 1 /\ x.reused = 0) => Bad(r, "run " \o ToString(k) \o " did not re-use any instance")
+
+\* exploratory sequence (never a verdict): does this tree support a second key generation on the same instances at all?
+CheckSeqProbe(r) ==
+  \A k \in DOMAIN r.runs :
+     LET x == r.runs[k] IN
+     (k > 1 /\ (x.timeout \/ (\E m \in DOMAIN x.errs : x.errs[m] \/ x.panics[m]) \/ ~x.agree)) =>
+        Drift(r, "a second key generation on the same " \o r.scheme \o " instances does not complete on this tree (sequences of key generations are not demanded of this scheme): "
+                 \o x.errtxt \o " / " \o x.panictxt)
 
 \* LARGE point sets.  Monitor: the real coefficients of S satisfy the laws that characterise interpolation at zero.
 CheckBLag(r) ==
@@ -174,17 +209,22 @@ Coverage(upto) ==     \* (the parameter only keeps TLC from evaluating this whil
       mdeal  == {<<p, nt[1], nt[2], c>> : p \in Pkgs, nt \in BigNT, c \in DealClasses} \ deal
       mdkg   == ({<<p, nt[1], nt[2], 0, FALSE>> : p \in Pkgs, nt \in BigDkg}
                  \cup {<<p, nt[1], nt[2], 1, o>> : p \in Pkgs, nt \in BigDkg, o \in BOOLEAN}
-                 \cup {<<p, nt[1], nt[2], nt[1], o>> : p \in Pkgs, nt \in BigDkg, o \in BOOLEAN}) \ dkg IN
+                 \cup {<<p, nt[1], nt[2], nt[1], o>> : p \in Pkgs, nt \in BigDkg, o \in BOOLEAN}) \ dkg
+      sq     == {<<r.scheme, r.plan>> : r \in {x \in Executed("seq") : Len(x.runs) = x.planned}}
+      msq    == {<<p, sp>> : p \in SeqSchemes, sp \in SeqPlans} \ sq IN
   /\ mlag # {} => PrintT(<<"BAD", ToJson([id |-> 0, what |-> "demanded large point sets not executed: " \o ToString(Cardinality(mlag))])>>)
   /\ mcho # {} => PrintT(<<"BAD", ToJson([id |-> 0, what |-> "demanded large (n, k) not executed: " \o ToString(mcho)])>>)
   /\ mdeal # {} => PrintT(<<"BAD", ToJson([id |-> 0, what |-> "demanded large dealing cells not executed: " \o ToString(mdeal)])>>)
   /\ mdkg # {} => PrintT(<<"BAD", ToJson([id |-> 0, what |-> "demanded large DKG cases not executed: " \o ToString(mdkg)])>>)
-  /\ PrintT(<<"COVER", ToJson([blag |-> Cardinality(lag), bchoose |-> Cardinality(cho), bdeal |-> Cardinality(deal), bigdkg |-> Cardinality(dkg)])>>)
+  /\ msq # {} => PrintT(<<"BAD", ToJson([id |-> 0, what |-> "demanded sequences of key generations not executed: " \o ToString(msq)])>>)
+  /\ PrintT(<<"COVER", ToJson([seq |-> Cardinality(sq), blag |-> Cardinality(lag), bchoose |-> Cardinality(cho), bdeal |-> Cardinality(deal), bigdkg |-> Cardinality(dkg)])>>)
 
 Check(r) == CASE r.k = "choose" -> CheckChoose(r)
               [] r.k = "blag"    -> CheckBLag(r)
               [] r.k = "bchoose" -> CheckBChoose(r)
               [] r.k = "bdeal"   -> CheckBDeal(r)
+              [] r.k = "seq"     -> CheckSeq(r)
+              [] r.k = "seqprobe" -> CheckSeqProbe(r)
               [] r.k = "lag"    -> CheckLag(r)
               [] r.k = "rec"    -> CheckRec(r)
               [] r.k = "dkg"    -> CheckDkg(r)
